@@ -500,6 +500,61 @@ func runC17Nested(w *hx.Worker, k kindT) {
 	}
 }
 
+// runC17Tail: the numeric field's production ends with an optional group that starts to match and is then
+// given up (so a syntax error deeper in the input has been seen and discarded) before the conversion runs:
+// the error reported is still the conversion's, at the captured token.
+func runC17Tail(w *hx.Worker, k kindT) {
+	sub := reflect.StructOf([]reflect.StructField{{Name: "V", Type: k.plain, Tag: `@Num`}, {Name: "U", Type: reflect.TypeOf(""), Tag: `( @"px" "!" )?`}})
+	rt := reflect.StructOf([]reflect.StructField{{Name: "S", Type: reflect.PtrTo(sub), Tag: `@@`}, {Name: "Tail", Type: reflect.TypeOf(""), Tag: `@"px"?`}})
+	texts := []string{"0", "1", "127", "128", "255", "256", "-1", "-129", "65536", "1e39", "1.5", "x", "0x7f", "99999999999999999999", "017", "08"}
+	for _, la := range []int{1, 2, 3, -1} {
+		p, err := participle.Build[any](participle.Lexer(numLexerWhole), participle.Elide("Space"), participle.UseLookahead(la), participle.Union[any](reflect.New(rt).Elem().Interface()))
+		if err != nil {
+			w.Violate(hx.Violation{Key: fmt.Sprintf("tail field=%s", k.name), Class: "build-failed", Detail: map[string]any{"err": err.Error()}})
+			return
+		}
+		for _, t1 := range texts {
+			for _, tail := range []string{"", " px", " px !"} {
+				in := "  " + t1 + tail
+				key := fmt.Sprintf("tail field=%s lookahead=%d :: in=%q", k.name, la, in)
+				w.Count("evaluations", 1)
+				o1, e1 := oracle(k, t1)
+				var res *any
+				var perr error
+				pan, msg := hx.Guard(func() { res, perr = p.ParseString("", in) })
+				if pan {
+					w.Violate(hx.Violation{Key: key, Class: "panic", Detail: map[string]any{"panic": msg}})
+					continue
+				}
+				if e1 != nil {
+					var ne *strconv.NumError
+					pe, isPE := perr.(participle.Error)
+					switch {
+					case perr == nil:
+						w.Violate(hx.Violation{Key: key, Class: "invalid-number-accepted", Detail: map[string]any{"ast": g2s(res), "strconv": e1.Error()}})
+					case !errors.As(perr, &ne):
+						w.Violate(hx.Violation{Key: key, Class: "error-does-not-name-conversion", Detail: map[string]any{"error": perr.Error()}})
+					case !isPE || pe.Position().Offset != 2:
+						w.Violate(hx.Violation{Key: key, Class: "error-position", Detail: map[string]any{"error": perr.Error(), "captured_token_at_offset": 2}})
+					}
+					w.DistinctS("terr" + k.name + t1)
+					continue
+				}
+				if perr != nil {
+					w.Violate(hx.Violation{Key: key, Class: "valid-number-rejected", Detail: map[string]any{"error": perr.Error()}})
+					continue
+				}
+				v := reflect.ValueOf(*res).FieldByName("S").Elem().FieldByName("V")
+				if b, nan := valueBits(v); nan != o1.nan || (!nan && b != o1.bits) {
+					w.Violate(hx.Violation{Key: key, Class: "wrong-value", Detail: map[string]any{"ast": g2s(res)}})
+					continue
+				}
+				w.DistinctS("tok" + k.name + in)
+			}
+		}
+	}
+}
+
 func g2s(p *any) string {
 	if p == nil || *p == nil {
 		return "<nil>"
@@ -1018,6 +1073,7 @@ func plan(c *hx.Ctx) *hx.Plan {
 			Job: func(w *hx.Worker, i int) {
 				if i >= len(js) {
 					runC17Nested(w, kinds[i-len(js)])
+					runC17Tail(w, kinds[i-len(js)])
 					return
 				}
 				runC17(w, js[i], "")
@@ -1075,9 +1131,10 @@ func plan(c *hx.Ctx) *hx.Plan {
 
 func replay(c *hx.Ctx, key string) []hx.Violation {
 	w := hx.NewReplayWorker()
-	if c.Prop == "C17" && strings.HasPrefix(key, "nested ") {
+	if c.Prop == "C17" && (strings.HasPrefix(key, "nested ") || strings.HasPrefix(key, "tail ")) {
 		for _, k := range kinds {
 			runC17Nested(w, k)
+			runC17Tail(w, k)
 		}
 		var out []hx.Violation
 		for _, v := range w.Violations() {
